@@ -7,6 +7,7 @@ exit 2: analysis broken (anchor vanished, unit does not parse, instance floor no
 import os, sys, json, time
 
 VERIF = os.path.dirname(os.path.dirname(os.path.dirname(os.path.abspath(__file__))))
+EVDIR = os.environ.get('BT_EVIDENCE') or os.path.join(VERIF, 'evidence')
 
 
 class Check:
@@ -149,8 +150,8 @@ class Check:
             'violations': len(violations),
         }
         ev['coverage'].update(self.extra)
-        os.makedirs(os.path.join(VERIF, 'evidence'), exist_ok=True)
-        with open(os.path.join(VERIF, 'evidence', self.pid + '.json'), 'w') as f:
+        os.makedirs(EVDIR, exist_ok=True)
+        with open(os.path.join(EVDIR, self.pid + '.json'), 'w') as f:
             json.dump(ev, f, indent=1)
         print('%s [%s]: %d rule instances (%d distinct sites) over %d functions in %d units, %.1fs' % (
             self.pid, self.tier, len(self.instances), len(distinct), len(self.functions_analysed), len(self.units), wall))
@@ -167,7 +168,7 @@ class Check:
                 print('ANALYSIS-BROKEN property=%s %s' % (self.pid, b))
             return 2
         if violations:
-            rdir = os.path.join(VERIF, 'evidence', 'replay')
+            rdir = os.path.join(EVDIR, 'replay')
             os.makedirs(rdir, exist_ok=True)
             for n, (site, lst) in enumerate(violations):
                 path = os.path.join(rdir, '%s-%d.json' % (self.pid, n))
